@@ -4,6 +4,7 @@ open PhQVerif Generated
 #print axioms PhQVerif.Props.C01.scale_constant_real_bound
 #print axioms PhQVerif.Props.C01.conversion_step_accuracy
 #print axioms PhQVerif.Props.C01.conversion_step_accuracy_div
+#print axioms PhQVerif.Props.C01.rational_scale_kernel_end_to_end
 #eval s!"COUNT C01.units {(unitTypes.map (·.values.length)).sum}"
 #eval s!"COUNT C01.kernel_checks {3 * 2 * (unitTypes.map (·.values.length)).sum}"
 #eval s!"COUNT C01.atoms_in_oracle {atomTable.length}"
